@@ -119,7 +119,7 @@ func objOps(k OpKind, names ...string) []Op {
 func FullAlphabet() []Op {
 	var ops []Op
 	for _, s := range Specs {
-		if s.Put {
+		if s.Put && !s.Extra {
 			ops = append(ops, Op{Kind: OpPut, Obj: s.Name})
 		}
 	}
@@ -135,6 +135,15 @@ func FullAlphabet() []Op {
 		ops = append(ops, Op{Kind: OpDeleteCnr, Cnr: c})
 	}
 	return ops
+}
+
+// ChainAlphabet drives the chain-shape families (v2 chain with middle parts, v1 chain): puts of every
+// member in any order and subset, parent expiry, tombstone / garbage mark on the parent, revival
+// and deletion of parts.
+func ChainAlphabet() []Op {
+	return OpsByName("Put(Ga)", "Put(G2)", "Put(Gb)", "Put(GK)", "Put(Gc)", "Put(G1)", "Put(Va)", "Put(Vl)", "Put(Vb)",
+		"Epoch+1", "Put(TG)", "Put(TW)", "MarkGarbage(G)", "MarkGarbage(W)",
+		"Revive(G)", "Revive(Ga)", "Revive(Va)", "Delete(G2)", "Delete(Vl)")
 }
 
 // OpsByName resolves a list of rendered operations.
@@ -164,6 +173,19 @@ func initMacros() { // called at the end of the universe's init (ByName must be 
 	Macros["marks"] = OpsByName("Put(R1)", "Put(R2)", "MarkRedundant(R1)", "MarkGarbage(R2)", "Put(T1)")
 	Macros["late"] = OpsByName("Epoch+1", "Epoch+1", "Put(R1)", "Put(L1)", "Put(E0)", "Put(D0)")
 	Macros["cb"] = OpsByName("Put(R3)", "Put(D0)", "Put(T4)", "Put(R2)")
+	// chain-shape prefixes (offered by the chain alphabet only)
+	Macros["v2chain"] = OpsByName("Put(G1)", "Put(Ga)", "Put(Gb)", "Put(Gc)", "Put(G2)", "Put(GK)")
+	Macros["v2chain-no-last"] = OpsByName("Put(Ga)", "Put(Gb)", "Put(Gc)", "Put(GK)")
+	Macros["v1chain"] = OpsByName("Put(Va)", "Put(Vl)", "Put(Vb)")
+}
+
+// ChainMacroOps returns the chain-shape prefixes.
+func ChainMacroOps() []Op {
+	var r []Op
+	for _, n := range []string{"v2chain", "v2chain-no-last", "v1chain"} {
+		r = append(r, Op{Kind: OpMacro, Obj: n})
+	}
+	return r
 }
 
 // MacroOps returns the macro letters in a fixed order.
